@@ -77,6 +77,17 @@ def handle (op : String) (args : List String) : String :=
       let env := liveEnv (xmlOf (parseXml (rest.drop k)))
       "ok " ++ showEmits (run env (parseCtx ctx) entries)
     | none => "bad-op"
+  -- `gcheck`: `check_messages` REGENERATED from lib/check/__init__.py (Generated.MsgChk; `_check_message_formats` is the model's opaque stage)
+  | "gcheck", ctx :: n :: rest =>
+    let k := n.toNat!
+    match (rest.take k).mapM parseEntry with
+    | some entries =>
+      let env := liveEnv (xmlOf (parseXml (rest.drop k)))
+      let c := parseCtx ctx
+      match Generated.MsgChk.check_messages env c env.flag entries c.isTemplate (if c.hasEncoding then some () else none) c.isBinary c.possibleHiddenStrings [] with
+      | .ok out => "ok " ++ showEmits (observe out)
+      | .error _ => "err crash"
+    | none => "bad-op"
   | "spec", ctx :: n :: rest =>
     -- the reference rules (Spec.MessageRules), evaluated: compared with the REAL code by the `spec-vs-code` stream
     let k := n.toNat!
